@@ -5,10 +5,12 @@ import (
 	_ "verif/harness/prop/c01"
 	_ "verif/harness/prop/c02"
 	_ "verif/harness/prop/c03"
+	_ "verif/harness/prop/c06"
 	_ "verif/harness/prop/c07"
 	_ "verif/harness/prop/c08"
 	_ "verif/harness/prop/c09"
 	_ "verif/harness/prop/c10"
 	_ "verif/harness/prop/c17"
 	_ "verif/harness/prop/c18"
+	_ "verif/harness/prop/c20"
 )
